@@ -1814,7 +1814,8 @@ class LoopExpression(Expression):
             return iter(obj.items()), len(obj)
         if isinstance(obj, range):
             try:
-                return iter(obj), len(obj)
+                # Not an iterator yet. `_slice` can skip to an offset by arithmetic.
+                return cast(Iterator[Any], obj), len(obj)
             except OverflowError as err:
                 raise LiquidTypeError(
                     f"the range at '{self.iterable}' is too large", token=self.token
@@ -1852,7 +1853,7 @@ class LoopExpression(Expression):
             context.stopindex(key=offset_key, index=length)
             if self.reversed:
                 return reversed(list(it)), length
-            return it, length
+            return iter(it), length
 
         if offset == "continue":
             offset = context.stopindex(key=offset_key)
@@ -1870,7 +1871,11 @@ class LoopExpression(Expression):
 
         stop = offset + length if offset else length
         context.stopindex(key=offset_key, index=stop)
-        it = islice(it, offset, stop)
+        if isinstance(it, range):
+            # Skipping to the offset of a range is arithmetic, not iteration.
+            it = iter(it[offset or 0 : stop])
+        else:
+            it = islice(it, offset, stop)
 
         if self.reversed:
             return reversed(list(it)), length
